@@ -156,10 +156,17 @@ class Cluster(object):
     def start_node(self, node):
         """an added node starts empty with the current member list (operator discipline)"""
         sim = self.sim
-        # "starts with the current member list": the list of the node whose log is most advanced and that lists it
-        cands = [i for i in sim.objs if node in self.members(i)]
-        ref = max(cands, key=lambda i: (sim.objs[i].raftCurrentTerm, sim.last_index(i)))
-        others = sorted((self.members(ref) | {ref}) - {node})
+        # "starts with the current member list": the COMMITTED configuration (the view of a deposed leader with an
+        # uncommitted change is not what an operator would pass) = fold of the committed membership entries of the
+        # node with the highest commit index
+        ref = max(sim.objs, key=lambda i: (sim.objs[i].raftCommitIndex, sim.objs[i].raftCurrentTerm))
+        m = set(self.base[ref])
+        for (idx, term, k, n) in mem_entries(sim, ref):
+            if idx <= sim.objs[ref].raftCommitIndex:
+                m = step_set(m, ref, k, n)
+        if node not in m:
+            return False          # its addition is not committed yet
+        others = sorted((m | {ref}) - {node})
         sim.now[node] = max(sim.now.values())
         sim.voters.append(node)
         sim._start(node, others=others)
@@ -173,6 +180,7 @@ class Cluster(object):
         self.hook(node)
         self.sync_connections()
         self.cov["start-node"] += 1
+        return True
 
     def replay_base(self, node, ref):
         """the new node will receive the whole log of the cluster, membership entries included, and apply them on top
@@ -231,9 +239,9 @@ def scenario(ctx, rng, steps):
                 want |= c.members(i)
             for node in sorted(want):
                 if node not in c.started:
-                    c.start_node(node)
-                    what = "start %s" % node
-                    break
+                    if c.start_node(node):
+                        what = "start %s" % node
+                        break
         elif r < 0.75:
             sim.run(rng.randint(1, 3), dt=rng.choice([0.0625, 0.125, 0.25]))
             what = "run"
